@@ -144,6 +144,11 @@ func (ac *affCtx) inlinable(call *ssa.Call) (*ssa.Function, bool) {
 // transparent: a helper the description looks through: same package, unexported, not recursive, without loops,
 // and not part of the vocabulary the WIRE facts are written in (those stay opaque so that the facts keep their names).
 func (ac *affCtx) transparent(call *ssa.Call) (*ssa.Function, bool) {
+	return ac.transparentLoops(call, false)
+}
+
+// transparentLoops: as transparent; helpers with loops qualify only for contributing facts, not for value descriptions.
+func (ac *affCtx) transparentLoops(call *ssa.Call, allowLoops bool) (*ssa.Function, bool) {
 	if ac.inlining >= 3 {
 		return nil, false
 	}
@@ -165,7 +170,7 @@ func (ac *affCtx) transparent(call *ssa.Call) (*ssa.Function, bool) {
 	}
 	// no loops: the result must be an expression of the parameters
 	for _, b := range callee.Blocks {
-		if inLoop(b) {
+		if !allowLoops && inLoop(b) {
 			return nil, false
 		}
 	}
@@ -476,6 +481,35 @@ func (ac *affCtx) argString(v ssa.Value) string {
 		f := ac.form(v)
 		if f.bad == "" {
 			return f.String()
+		}
+	}
+	// a variadic argument list (`append(xs, a, b)`): render the elements
+	if sl, ok := v.(*ssa.Slice); ok && sl.Low == nil && sl.High == nil {
+		if al, ok := sl.X.(*ssa.Alloc); ok && al.Comment == "varargs" {
+			elems := map[int64]string{}
+			okAll := true
+			for _, r := range *al.Referrers() {
+				ia, ok := r.(*ssa.IndexAddr)
+				if !ok {
+					continue
+				}
+				k, isK := constInt(ia.Index)
+				for _, rr := range *ia.Referrers() {
+					if st, ok := rr.(*ssa.Store); ok && st.Addr == ssa.Value(ia) {
+						if !isK {
+							okAll = false
+						}
+						elems[k] = ac.describe(st.Val)
+					}
+				}
+			}
+			if okAll && len(elems) > 0 {
+				var ss []string
+				for i := int64(0); i < int64(len(elems)); i++ {
+					ss = append(ss, elems[i])
+				}
+				return "[" + strings.Join(ss, ",") + "]"
+			}
 		}
 	}
 	return ac.describe(v)
